@@ -143,7 +143,20 @@ class Srv6SidInformation:
 
     def json(self, compact: bool | None = None) -> str:
         s: str = '{{ "sid": "{}", "flags": 0, "endpoint_behavior": {}'.format(str(self.sid), self.behavior)
-        content: str = ', '.join(subsubtlv.json() for subsubtlv in self.subsubtlvs)
+        # The known sub-sub-TLVs render as a member, the generic one as an object: spliced in as it was, an
+        # unknown sub-sub-TLV made the line unparseable, and a repeated one gave the object the same key twice.
+        members: list[str] = []
+        keys: set[str] = set()
+        for subsubtlv in self.subsubtlvs:
+            member = subsubtlv.json()
+            if member.startswith('{'):
+                member = '"unknown-{}": {}'.format(getattr(subsubtlv, 'code', 0), member)
+            key = member.split(':', 1)[0]
+            if key in keys:
+                continue
+            keys.add(key)
+            members.append(member)
+        content: str = ', '.join(members)
         if content:
             s += ', {}'.format(content)
         s += ' }'
